@@ -1076,3 +1076,131 @@ Proof.
   assert (1 <= cntx x (queue (crash w))) as Q by lia. destruct (cntx_pos_ex _ _ Q) as (e & He & _).
   exact (queued_event_can_be_delivered kind s0 (crash w) e He).
 Qed.
+
+(* ------------------------------------------------------------------ timers are unique: a second, independent invariant *)
+Record TInv (w : world) : Prop := { t_nodup : NoDup (tids w); t_fresh : forall t, In t (tids w) -> t < next_tid w }.
+
+Lemma tids_app h1 h2 : map (fun p : event * phase => timer_of (snd p)) (h1 ++ h2) = map (fun p => timer_of (snd p)) h1 ++ map (fun p => timer_of (snd p)) h2.
+Proof. apply map_app. Qed.
+
+Lemma remove_held_tids_in m h t : In t (map (fun p : event * phase => timer_of (snd p)) (remove_held m h)) -> In t (map (fun p => timer_of (snd p)) h).
+Proof.
+  induction h as [|[a q] h IH]; cbn; [tauto|]. destruct (Nat.eqb (e_id a) m); cbn; [intros H; right; exact H|].
+  intros [H|H]; [left; exact H|right; apply IH; exact H].
+Qed.
+Lemma remove_held_tids_nodup m h : NoDup (map (fun p : event * phase => timer_of (snd p)) h) -> NoDup (map (fun p => timer_of (snd p)) (remove_held m h)).
+Proof.
+  induction h as [|[a q] h IH]; cbn; intros H; [constructor|]. inversion H; subst. destruct (Nat.eqb (e_id a) m); [assumption|]. cbn.
+  constructor; [intros F; apply remove_held_tids_in in F; contradiction|apply IH; assumption].
+Qed.
+
+Lemma set_phase_tids_in m n h t : In t (map (fun p : event * phase => timer_of (snd p)) (set_phase m (PPending n) h)) -> t = n \/ In t (map (fun p => timer_of (snd p)) h).
+Proof.
+  induction h as [|[a q] h IH]; cbn; [tauto|]. destruct (Nat.eqb (e_id a) m); cbn.
+  - intros [H|H]; [left; symmetry; exact H|right; right; exact H].
+  - intros [H|H]; [right; left; exact H|]. destruct (IH H); [left; assumption|right; right; assumption].
+Qed.
+Lemma set_phase_tids_nodup m n h : NoDup (map (fun p : event * phase => timer_of (snd p)) h) -> ~ In n (map (fun p => timer_of (snd p)) h) ->
+  NoDup (map (fun p => timer_of (snd p)) (set_phase m (PPending n) h)).
+Proof.
+  induction h as [|[a q] h IH]; cbn; intros H N; [constructor|]. inversion H; subst. destruct (Nat.eqb (e_id a) m); cbn.
+  - constructor; [intros F; apply N; right; exact F|assumption].
+  - constructor.
+    + intros F. apply set_phase_tids_in in F as [F|F]; [apply N; left; exact F|contradiction].
+    + apply IH; [assumption|]. intros F. apply N. right. exact F.
+Qed.
+
+Lemma tinv_finished w e s d n hs : TInv w -> TInv (finished w e s d n hs).
+Proof.
+  intros [Nd Fr]. unfold tids in *. constructor.
+  - unfold tids. destruct d; cbn [finished held]; apply remove_held_tids_nodup; exact Nd.
+  - intros t Ht. unfold tids in Ht. destruct d; cbn [finished held next_tid] in *; apply remove_held_tids_in in Ht; apply Fr; exact Ht.
+Qed.
+
+Lemma tinv_same_held w w' : held w' = held w -> next_tid w' = next_tid w -> TInv w -> TInv w'.
+Proof. intros Hh Hn [Nd Fr]. constructor; unfold tids in *; rewrite Hh; [exact Nd|rewrite Hn; exact Fr]. Qed.
+
+Lemma tinv_enter kind w e s d n w' effs : TInv w -> enter kind w e s d n = Some (w', effs) -> TInv w'.
+Proof.
+  intros T H. unfold enter in H.
+  destruct (kind s);
+    try (destruct (id_ok w d n); [|discriminate]; apply some_fst in H; subst; apply tinv_finished; exact T);
+    (destruct (Nat.leb_spec (next_tid w) n) as [L|L]; [|discriminate]; apply some_fst in H; subst; destruct T as [Nd Fr]; constructor; unfold tids, with_held in *; cbn [held next_tid];
+     [rewrite tids_app; cbn; apply nodup_snoc; [exact Nd|intros F; apply Fr in F; lia]
+     |intros t Ht; rewrite tids_app in Ht; apply in_app_iff in Ht as [Ht|[Ht|[]]]; [apply Fr in Ht; lia|cbn in Ht; lia]]).
+Qed.
+
+Theorem step_tinv kind s0 w i w' effs : TInv w -> step kind s0 w i = Some (w', effs) -> TInv w'.
+Proof.
+  intros T H. destruct i as [m d n|t d n|corr ok|corr d n|t]; cbn [step] in H.
+  - destruct (find_event m (queue w)) as [e|]; [|discriminate].
+    assert (TInv (with_queue w (remove_event m (queue w)))) as T0 by (apply (tinv_same_held w); [reflexivity|reflexivity|exact T]).
+    destruct (e_state e) as [s|].
+    + destruct (decision_ok _ _); [|discriminate]. eapply tinv_enter; eassumption.
+    + destruct (decision_ok _ _); [|discriminate]. destruct (enter kind _ e s0 d n) as [[w2 effs2]|] eqn:He; [|discriminate]. apply some_fst in H; subst.
+      eapply tinv_enter; [|exact He]. apply (tinv_same_held (with_queue w (remove_event m (queue w)))); [reflexivity|reflexivity|exact T0].
+  - destruct (find_by_timer t (held w)) as [[e p]|]; [|discriminate]. destruct p as [t'|t'|t'].
+    + destruct d as [s'| | |]; try (destruct (id_ok w _ n); [|discriminate]; apply some_fst in H; subst; apply tinv_finished; exact T).
+      destruct (Nat.leb_spec (next_tid w) n) as [L|L]; [|discriminate]. apply some_fst in H; subst. destruct T as [Nd Fr]. constructor; unfold tids in *; cbn [held next_tid].
+      * apply set_phase_tids_nodup; [exact Nd|intros F; apply Fr in F; lia].
+      * intros u Hu. apply set_phase_tids_in in Hu as [->|Hu]; [lia|apply Fr in Hu; lia].
+    + destruct (_ && _); [|discriminate]. apply some_fst in H; subst. apply tinv_finished; exact T.
+    + destruct d as [s'| | |]; try discriminate; (destruct (id_ok w _ n); [|discriminate]; apply some_fst in H; subst; apply tinv_finished; exact T).
+  - destruct (existsb _ _); [|discriminate]. apply some_fst in H; subst. apply (tinv_same_held w); [reflexivity|reflexivity|exact T].
+  - destruct (replies w) as [|[c ok] rest]; [discriminate|]. destruct (Nat.eqb c corr); [|discriminate].
+    match type of H with context [finished ?W0 _ _ _ _ _] => assert (TInv W0) as T0 by (apply (tinv_same_held w); [reflexivity|reflexivity|exact T]) end.
+    destruct (find_held corr (held w)) as [[e [t'|t'|t']]|]; try (apply some_fst in H; subst; apply (tinv_same_held w); [reflexivity|reflexivity|exact T]).
+    destruct (_ && _); [|discriminate]. apply some_fst in H; subst. apply tinv_finished; exact T0.
+  - destruct (find_by_timer t (held w)) as [[e [t'|t'|t']]|]; try discriminate. apply some_fst in H; subst. apply tinv_finished; exact T.
+Qed.
+
+Lemma tinv_init starts fi ft : TInv (empty_world starts fi ft).
+Proof. constructor; cbn; [constructor|intros t []]. Qed.
+
+Lemma run_tinv kind s0 l : forall w w' effs, TInv w -> run kind s0 w l = Some (w', effs) -> TInv w'.
+Proof.
+  induction l as [|i l IH]; cbn [run]; intros w w' effs T H; [apply some_fst in H; subst; exact T|].
+  destruct (step kind s0 w i) as [[w1 e1]|] eqn:Hs; [|discriminate]. destruct (run kind s0 w1 l) as [[w2 e2]|] eqn:Hr; [|discriminate].
+  apply some_fst in H; subst. apply (IH w1 w2 e2); [eapply step_tinv; eassumption|exact Hr].
+Qed.
+
+(* ------------------------------------------------------------------ progress of THIS execution *)
+(* the step is a handler invocation for an event of execution x *)
+Definition moves (w : world) (i : input) (x : xid) : Prop :=
+  match i with
+  | IDeliver m _ _ => option_map e_x (find_event m (queue w)) = Some x
+  | IFire t _ _ => option_map (fun ep : event * phase => e_x (fst ep)) (find_by_timer t (held w)) = Some x
+  | _ => False
+  end.
+
+Lemma nodup_map_inj {A} (f : A -> nat) (l : list A) a b : NoDup (map f l) -> In a l -> In b l -> f a = f b -> a = b.
+Proof.
+  induction l as [|c l IH]; cbn; intros H Ha Hb E; [contradiction|]. inversion H as [|? ? Hc Hl]; subst.
+  destruct Ha as [->|Ha], Hb as [->|Hb]; [reflexivity| | |apply IH; assumption].
+  - exfalso. apply Hc. rewrite E. apply in_map. exact Hb.
+  - exfalso. apply Hc. rewrite <- E. apply in_map. exact Ha.
+Qed.
+
+Theorem running_execution_can_move kind s0 starts w effs x : reachable kind s0 starts w effs ->
+  get_status x (statuses w) = Some Running -> exists i w' effs', step kind s0 w i = Some (w', effs') /\ moves w i x.
+Proof.
+  intros R St. destruct (reachable_inv _ _ _ _ _ R) as (I & _).
+  assert (TInv w) as T by (destruct R as (fi & ft & l & Hs & Hr); eapply run_tinv; [apply tinv_init|exact Hr]).
+  pose proof (i_x _ I x) as X. unfold xinv in X. rewrite St in X. destruct X as (_ & Tk & _). unfold tokens in Tk. set (n := Nat.max (next_id w) (next_tid w)).
+  assert (Nat.leb (next_tid w) n = true) as Ln by (apply Nat.leb_le; unfold n; lia).
+  pose proof (i_nodup _ I) as Nd. unfold live_ids in Nd.
+  destruct (cntx x (queue w)) eqn:Cq.
+  - assert (1 <= cntx x (hevents w)) as Hp by lia. destruct (cntx_pos_ex _ _ Hp) as (e & He & Hx).
+    unfold hevents in He. apply in_map_iff in He as ([e1 p] & E1 & Hin). cbn in E1. subst e1. destruct (find_by_timer_some _ _ _ Hin) as (e' & p' & Hf).
+    destruct (find_by_timer_spec _ _ _ _ Hf) as (Hin' & Ht').
+    assert ((e', p') = (e, p)) as Eq by (apply (nodup_map_inj (fun q : event * phase => timer_of (snd q)) (held w)); [exact (t_nodup _ T)|exact Hin'|exact Hin|exact Ht']).
+    inversion Eq; subst e' p'.
+    exists (IFire (timer_of p) (match p with PPending _ => DFailed | _ => DEnd end) n). cbn [step moves]. rewrite Hf. cbn [option_map fst]. rewrite Hx.
+    destruct p; cbn; rewrite ?Ln; eexists; eexists; split; reflexivity.
+  - assert (1 <= cntx x (queue w)) as Hp by lia. destruct (cntx_pos_ex _ _ Hp) as (e & He & Hx). destruct (find_event_some _ _ He) as (e' & Hf).
+    destruct (find_event_spec _ _ _ Hf) as (He' & Hid).
+    assert (e' = e) as -> by (apply (nodup_map_inj e_id (queue w)); [apply (nodup_app_l _ _ Nd)|exact He'|exact He|exact Hid]).
+    exists (IDeliver (e_id e) (match kind (state_of s0 e) with KFail => DFailed | _ => DEnd end) n). cbn [step moves]. rewrite Hf. cbn [option_map]. rewrite Hx. unfold state_of.
+    destruct (e_state e) as [s|]; unfold enter; cbn [with_queue started next_tid]; destruct (kind _) eqn:K; cbn; rewrite ?K, ?Ln; cbn;
+      eexists; eexists; split; reflexivity.
+Qed.
